@@ -326,10 +326,10 @@ func runC14(c *hc.Ctx) error {
 		bases = append(bases, c14Base{n, "(BGen " + coqStr(n) + ")", t, true, false})
 	}
 	for _, s := range []struct {
-		levels, tw     int
-		cell, corner   string
-		ox, oy         string
-		first          int
+		levels, tw   int
+		cell, corner string
+		ox, oy       string
+		first        int
 	}{
 		{4, 256, "1024", "", "-1000.5", "2000.25", 0},
 		{6, 512, "0.703125", "bottomLeft", "-180", "-90", 0},
@@ -397,7 +397,7 @@ func runC14(c *hc.Ctx) error {
 		}
 		if vc == "accept" && len(ps) == 0 && stats != "" {
 			// pixel size used for the deepest requested matrix = its cell size / 16
-				deepest := slices.Max(ids)
+			deepest := slices.Max(ids)
 			root, hasRoot := t.TileMatrices[0]
 			m, has := t.TileMatrices[deepest]
 			if mm := resoRe.FindStringSubmatch(stats); mm != nil && has && hasRoot && root.MatrixWidth == 1 {
